@@ -176,15 +176,20 @@ func buildShiftMatchingPredicate(sw swamp.Swamp, beaconType swamp.BeaconType, fi
 	plan := PlanFilter(filters)
 	filterEval := filters
 	var keySet map[string]struct{}
+	// useKeySet, not keySet != nil: candidateKeySet returns a nil map for an
+	// empty candidate list, and "no record has the indexed value" must
+	// reject every record, not skip the indexed leg.
+	useKeySet := false
 	if plan.Mode != PlanModeBypass {
 		candidates := collectBucketCandidates(sw, plan.Hints)
 		keySet = candidateKeySet(candidates)
+		useKeySet = true
 		filterEval = plan.Residual
 	}
 
 	if !hasTimeBounds {
 		return func(t treasure.Treasure) bool {
-			if keySet != nil {
+			if useKeySet {
 				if _, in := keySet[t.GetKey()]; !in {
 					return false
 				}
@@ -197,7 +202,7 @@ func buildShiftMatchingPredicate(sw swamp.Swamp, beaconType swamp.BeaconType, fi
 		if !inTimeRange(getTs(t), fromNano, toNano) {
 			return false
 		}
-		if keySet != nil {
+		if useKeySet {
 			if _, in := keySet[t.GetKey()]; !in {
 				return false
 			}
